@@ -200,6 +200,14 @@ def run_case(case, ctx, mon):
             plain.merge(extra)
             mon.api(other_h.merge, extra)
             agree(mon, plain, handles, kind, universe, cfg, [other_name, "merge(extra)"])
+            if n_op % 8 == 7 and len(handles) > 1:
+                # both operands are handles on the SAME block (and, for the ordinary sketch, the sketch itself)
+                if is_log:
+                    state.share_draws(plain, handles[0][1])
+                plain.merge(plain)
+                mon.api(handles[0][1].merge, handles[1][1])
+                agree(mon, plain, handles, kind, universe, cfg, ["owner.merge(view of the same block)"])
+                mon.count("merges_of_two_handles_on_one_block")
             mon.count("merges_through_handles")
             other_h = t_h = t_ref = extra = None  # no stray reference may keep a handle alive (deletion orders are observed below)
     mon.count(f"cases:{kind}")
